@@ -8,8 +8,11 @@ package main
 // malformed stream aimed at the decoder.
 
 import (
+	"encoding/asn1"
 	"fmt"
 	"math/big"
+
+	"github.com/edutko/decipher/internal/asn1struct"
 )
 
 var derByteOps = map[string]bool{"pkcs1pub": true, "pkcs1priv": true, "dsapriv": true, "dsaparams": true, "spki": true, "pkcs8": true}
@@ -167,7 +170,74 @@ func (g *c02) seqStream(op, tag string, els []derEl, intFields []int, wrap func(
 
 func ident(b []byte) []byte { return b }
 
+// derEncoders ties the DER writers of Model/KeysDer.v (enc_pkcs1_public ... enc_pkcs8_ed25519, the encodings the
+// "from the bytes" theorems are about) to encoding/asn1.Marshal applied to the REPOSITORY's struct types: the
+// same abstract key must give the same octets (op derenc; integers travel as magnitudes).
+func (g *c02) derEncoders() {
+	r := NewRng(0xC02E4C)
+	mags := func(zs ...*big.Int) Sx {
+		l := SL{}
+		for _, z := range zs {
+			l = append(l, SB(z.Bytes()))
+		}
+		return l
+	}
+	emit := func(kind string, args Sx, v any) {
+		g.c.Emit("derenc:"+kind, SL{S(kind), args}, guard(func() Sx {
+			b, err := asn1.Marshal(v)
+			if err != nil {
+				return ObsErr()
+			}
+			return ObsOk(SB(b))
+		}))
+	}
+	algid := func(oid []int, params []byte) asn1struct.AlgorithmIdentifier {
+		a := asn1struct.AlgorithmIdentifier{Algorithm: asn1.ObjectIdentifier(oid)}
+		if params != nil {
+			a.Parameters = asn1.RawValue{FullBytes: params}
+		}
+		return a
+	}
+	bitsOf := func(b []byte) asn1.BitString { return asn1.BitString{Bytes: b, BitLength: 8 * len(b)} }
+	must := func(v any) []byte {
+		b, err := asn1.Marshal(v)
+		if err != nil {
+			panic(err)
+		}
+		return b
+	}
+	lens := []int{0, 1, 7, 8, 9, 15, 16, 17, 63, 64, 65, 127, 128, 129, 255, 256, 257, 511, 512, 1016, 1023, 1024, 1025, 2047, 2048}
+	exps := []int64{0, 1, 3, 127, 128, 255, 256, 65537, 1<<31 - 1, 1 << 31, 1<<32 + 1, 1<<47 - 1, 1<<54 + 1, 1<<55 - 1}
+	pick := func(i, form int) *big.Int {
+		b := lens[i%len(lens)]
+		if b == 0 {
+			return new(big.Int)
+		}
+		return randBits(r, b, form)
+	}
+	for i := 0; i < 3*len(lens); i++ {
+		form := i % 5
+		n, e := pick(i, form), exps[i%len(exps)]
+		d, p, q, dp, dq, qi := pick(i+3, 4), pick(i+5, 4), pick(i+7, form), pick(i+11, 4), pick(i+13, 4), pick(i+17, 4)
+		eb := big.NewInt(e)
+		pub := asn1struct.PKCS1PublicKey{N: n, E: int(e)}
+		priv := asn1struct.PKCS1PrivateKey{N: n, E: int(e), D: d, P: p, Q: q, Dp: dp, Dq: dq, Qinv: qi}
+		emit("pkcs1pub", mags(n, eb), pub)
+		emit("pkcs1priv", mags(n, eb, d, p, q, dp, dq, qi), priv)
+		emit("dsaparams", mags(n, q, d), asn1struct.DSAParameters{P: n, Q: q, G: d})
+		emit("dsapriv", mags(n, q, d, p, dp), asn1struct.DSAPrivateKey{P: n, Q: q, G: d, Pub: p, Priv: dp})
+		emit("spkirsa", mags(n, eb), asn1struct.PKIXPublicKey{Algorithm: algid(oidRSA, []byte{5, 0}), PublicKey: bitsOf(must(pub))})
+		emit("spkidsa", mags(n, q, d, p), asn1struct.PKIXPublicKey{Algorithm: algid(oidDSA, must(asn1struct.DSAParameters{P: n, Q: q, G: d})), PublicKey: bitsOf(must(p))})
+		emit("pkcs8rsa", mags(n, eb, d, p, q, dp, dq, qi), asn1struct.PKCS8PrivateKey{Algorithm: algid(oidRSA, []byte{5, 0}), PrivateKey: must(priv)})
+		emit("pkcs8dsa", mags(n, q, d, dp), asn1struct.PKCS8PrivateKey{Algorithm: algid(oidDSA, must(asn1struct.DSAParameters{P: n, Q: q, G: d})), PrivateKey: must(dp)})
+		raw := r.Bytes([]int{0, 1, 32, 57, 127, 128, 300}[i%7])
+		emit("spkied25519", SL{SB(raw)}, asn1struct.PKIXPublicKey{Algorithm: algid(oidEd25519, nil), PublicKey: bitsOf(raw)})
+		emit("pkcs8ed25519", SL{SB(raw)}, asn1struct.PKCS8PrivateKey{Algorithm: algid(oidEd25519, nil), PrivateKey: must(raw)})
+	}
+}
+
 func (g *c02) derDecoderStream() {
+	g.derEncoders()
 	r := NewRng(0xC02DE4)
 	k := genRSA(r, 512, 4)
 	k.E = big.NewInt(65537)
